@@ -70,15 +70,18 @@ using live_t = live_and_dead_analysis<cfg_ref_t>;
 
 struct IntraFwdImpl : IntraFwd {
   CrabFunction &fn;
+  // the fixpoint iterator keeps a REFERENCE to its parameters: they must outlive it
+  crab::fixpoint_parameters fpp;
   std::unique_ptr<live_t> live;
   std::unique_ptr<fwd_t> an;
-  IntraFwdImpl(CrabFunction &f, const dom_t &top, FixpoCfg fp, bool liveness) : fn(f) {
+  IntraFwdImpl(CrabFunction &f, const dom_t &top, FixpoCfg fp, bool liveness)
+      : fn(f), fpp(to_fp(fp)) {
     cfg_ref_t ref(*fn.cfg);
     if (liveness) {
       live.reset(new live_t(ref));
       live->exec();
     }
-    an.reset(new fwd_t(ref, top, live.get(), to_fp(fp)));
+    an.reset(new fwd_t(ref, top, live.get(), fpp));
   }
   void run(const std::string &entry, const dom_t &init, const AssumptionMap &assume) override {
     auto m = to_crab_assumptions<typename fwd_t::assumption_map_t>(assume);
@@ -122,6 +125,7 @@ using fb_t = intra_forward_backward_analyzer<cfg_ref_t, dom_t>;
 
 struct FwdBwdImpl : FwdBwd {
   CrabFunction &fn;
+  crab::fixpoint_parameters fpp;
   std::unique_ptr<live_t> live;
   std::unique_ptr<fb_t> an;
   FwdBwdImpl(CrabFunction &f, const dom_t &top) : fn(f) {
@@ -140,7 +144,8 @@ struct FwdBwdImpl : FwdBwd {
     p.get_max_refine_iterations() = max_refine;
     p.get_use_refined_invariants() = use_refined;
     auto m = to_crab_assumptions<typename fb_t::assumption_map_t>(assume);
-    an->run(entry, init, m, live.get(), to_fp(fp), p);
+    fpp = to_fp(fp);
+    an->run(entry, init, m, live.get(), fpp, p);
   }
   AbsVal::P pre(const std::string &l) override { return wrap_dom(an->get_pre(l)); }
   AbsVal::P post(const std::string &l) override { return wrap_dom(an->get_post(l)); }
@@ -151,10 +156,12 @@ using bwd_t = necessary_preconditions_fixpoint_iterator<cfg_ref_t, dom_t>;
 
 struct BackwardImpl : Backward {
   CrabFunction &fn;
+  crab::fixpoint_parameters fpp;
   std::unique_ptr<bwd_t> an;
-  BackwardImpl(CrabFunction &f, const dom_t &top, bool good, FixpoCfg fp) : fn(f) {
+  BackwardImpl(CrabFunction &f, const dom_t &top, bool good, FixpoCfg fp)
+      : fn(f), fpp(to_fp(fp)) {
     cfg_ref_t ref(*fn.cfg);
-    an.reset(new bwd_t(ref, top, good, to_fp(fp)));
+    an.reset(new bwd_t(ref, top, good, fpp));
   }
   void run(const dom_t &postcond, const AssumptionMap *inv) override {
     if (inv) {
